@@ -148,7 +148,12 @@ func (m *Metrics) LoadGeoipDatabases(geoipDB string, geoip6DB string) error {
 	// Load geoip databases
 	var err error
 	log.Println("Loading geoip databases")
-	m.geoipdb, err = geoip.New(geoipDB, geoip6DB)
+	db, err := geoip.New(geoipDB, geoip6DB)
+	// The databases are reloaded on SIGHUP while polls are being counted:
+	// UpdateCountryStats reads m.geoipdb under the metrics lock.
+	m.lock.Lock()
+	m.geoipdb = db
+	m.lock.Unlock()
 	return err
 }
 
